@@ -40,6 +40,8 @@ for p in ALL:
         "technique": getattr(pack, "TECHNIQUE", "custom MIR dataflow/control-dependence rules (rustc_private driver)"),
     })
 
+N_SEEDED = len([d for d in os.listdir(os.path.join(VERIF, "seeded")) if os.path.exists(os.path.join(VERIF, "seeded", d, "patch.diff"))])
+N_NEUTRAL = len([d for d in os.listdir(os.path.join(VERIF, "neutral")) if os.path.exists(os.path.join(VERIF, "neutral", d, "patch.diff"))])
 manifest = {
     "version": 1,
     "setup_cmd": "./setup.sh",
@@ -67,10 +69,10 @@ manifest = {
     "notes": "Static analysis only. `./check Cxx` re-extracts MIR facts from /repo's working tree when any source "
              "changed (about 15-40 s, shared by all properties through .cache/), then runs the pack (2-5 s). "
              "Exit 2 = checker/infrastructure error (e.g. /repo does not compile), never a verdict. Regression corpora "
-             "kept under /verif: seeded/ (118 confirmed property-breaking changes written by sub-agents that saw only the "
-             "property text, 40 of them disguised as refactorings; each must be reported by its own property's check), neutral/ (180 behaviour-preserving "
-             "refactorings; every check must stay silent), mutations/ (catalogue incl. neutral edits); run with "
-             "tools/run_corpus.py and mutations/run.py on scratch copies.",
+             "kept under /verif: seeded/ (%d confirmed property-breaking changes written by sub-agents that saw only the "
+             "property text, four rounds - the last two disguised as refactorings / placed in supporting code; each must be reported by its own "
+             "property's check), neutral/ (%d behaviour-preserving refactorings; every check must stay silent), mutations/ (catalogue incl. "
+             "neutral edits); run with tools/run_corpus.py and mutations/run.py on scratch copies." % (N_SEEDED, N_NEUTRAL),
 }
 with open(os.path.join(VERIF, "MANIFEST.json"), "w") as fh:
     json.dump(manifest, fh, indent=1)
